@@ -123,9 +123,7 @@ theorem run_downgrade (c : Cfg) (fuel : Nat) (t : Nat) (rest : List Outcome) (fi
     run c (fuel + 1) (.downgrade t :: rest) first s =
       (if s.proto = 4 ∧ c.rof then
         let s1 : St := { s.emit (.attempt s.now true) with now := s.now + t, proto := 3 }
-        match rest with
-        | .refuse _ :: _ => (s1.emit (.attempt s1.now false)).emit .raised
-        | _ => run c fuel rest false s1
+        run c fuel rest false s1
       else if s.proto = 4 then
         (({ s.emit (.attempt s.now true) with now := s.now + t } : St).emit (.onDisconnect 2 (s.now + t))).emit (.ret 2)
       else run c fuel (.connackRefused 1 t {} :: rest) first s) := rfl
@@ -216,13 +214,9 @@ theorem run_struct (c : Cfg) (fuel : Nat) : ∀ (script : List Outcome) (first :
           rw [run_downgrade]
           split
           · simp only []
-            split
-            · have := Struct.close s.log [.attempt s.now true, .attempt (s.now + t) false] [] .raised
-                (by simp [isUD]) (by simp) rfl
-              simpa using this
-            · have := ih rest false { s.emit (.attempt s.now true) with now := s.now + t, proto := 3 } (by simpa using hs)
-              refine Struct.step [.attempt s.now true] ?_ (by simp [isUD])
-              simpa using this
+            have := ih rest false { s.emit (.attempt s.now true) with now := s.now + t, proto := 3 } (by simpa using hs)
+            refine Struct.step [.attempt s.now true] ?_ (by simp [isUD])
+            simpa using this
           · split
             · have := Struct.close s.log [.attempt s.now true, .onDisconnect 2 (s.now + t)] [] (.ret 2)
                 (by simp [isUD]) (by simp) rfl
@@ -414,10 +408,8 @@ theorem run_gap (c : Cfg) (hc : 1 ≤ c.minDelay ∧ c.minDelay ≤ c.maxDelay) 
           have hg1 : GapOK c (s.log ++ [.attempt s.now true]) := hg.snoc_att _ _ hl
           split
           · simp only []
-            split
-            · exact (hg1.snoc_att _ _ (LastOK.of_att _ _ _ _ _)).append_noatt [_] (by simp [isAtt])
-            · exact ih rest false { s.emit (.attempt s.now true) with now := s.now + t, proto := 3 } (by simpa using hs)
-                hreg hg1 (LastOK.of_att _ _ _ _ _)
+            exact ih rest false { s.emit (.attempt s.now true) with now := s.now + t, proto := 3 } (by simpa using hs)
+              hreg hg1 (LastOK.of_att _ _ _ _ _)
           · split
             · exact (hg1.append_noatt [_] (by simp [isAtt])).append_noatt [_] (by simp [isAtt])
             · exact ih _ first s hs hreg hg hl
@@ -467,10 +459,8 @@ theorem run_log_mono (c : Cfg) (fuel : Nat) : ∀ (script : List Outcome) (first
           rw [run_downgrade]
           split
           · simp only []
-            split
-            · exact ⟨_, by simp; rfl⟩
-            · obtain ⟨evs', h⟩ := ih rest false { s.emit (.attempt s.now true) with now := s.now + t, proto := 3 }
-              exact ⟨_, by rw [h]; simp; rfl⟩
+            obtain ⟨evs', h⟩ := ih rest false { s.emit (.attempt s.now true) with now := s.now + t, proto := 3 }
+            exact ⟨_, by rw [h]; simp; rfl⟩
           · split
             · exact ⟨_, by simp; rfl⟩
             · exact ih _ first s
@@ -526,5 +516,64 @@ theorem run_norof (c : Cfg) (h : c.rof = false) (fuel : Nat) (o : Outcome) (rest
     rw [run_downgrade]
     simp only [hp, false_and, if_false]
     exact run_norof_step c h fuel _ rest first s (by intro t' ht'; cases ht')
+
+/-! ### where `raised` can still come from: only a refused *first* attempt with retry_first_connection off -/
+
+theorem connLife_no_raised (c : Cfg) (s : St) (o : Outcome) (h : Obs.raised ∉ s.log) :
+    Obs.raised ∉ (connLife c s o).1.log := by
+  cases o with
+  | refuse d => exact h
+  | downgrade t => exact h
+  | eof t d =>
+    obtain ⟨a, b, e⟩ := d
+    cases e <;> simp [connLife, St.emit, h]
+  | connackRefused rc t d =>
+    obtain ⟨a, b, e⟩ := d
+    cases b <;> cases e <;> simp [connLife, St.emit, h]
+  | accepted t life d =>
+    obtain ⟨a, b, e⟩ := d
+    cases b <;> cases e <;> simp [connLife, St.emit, h]
+
+theorem run_no_raised (c : Cfg) (fuel : Nat) : ∀ (script : List Outcome) (first : Bool) (s : St),
+    (first = false ∨ c.retryFirst = true) → Obs.raised ∉ s.log → Obs.raised ∉ (run c fuel script first s).log := by
+  induction fuel with
+  | zero => intro script first s _ h; rw [run_zero]; simp [h]
+  | succ fuel ih =>
+    intro script first s hf h
+    have hnr : ¬ (first = true ∧ (!c.retryFirst) = true) := by
+      rcases hf with hf | hf <;> simp [hf]
+    cases script with
+    | nil => rw [run_nil]; simp [h]
+    | cons o rest =>
+      by_cases ho : IsConn o
+      · rw [run_conn _ _ _ _ _ _ ho]
+        have h1 := connLife_no_raised c (s.emit (.attempt s.now true)) o (by simp [h])
+        generalize connLife c (s.emit (.attempt s.now true)) o = r at *
+        simp only []
+        split
+        · simp [h1]
+        · split
+          · simp [h1]
+          · exact ih rest false _ (.inl rfl) (by simpa using h1)
+      · cases o with
+        | refuse d =>
+          rw [run_refuse]
+          simp only [hnr, if_false]
+          cases hd : d.inConnectFail
+          · simp only [Bool.false_eq_true, if_false]
+            split
+            · simp [h]
+            · split
+              · simp [h]
+              · exact ih rest false _ (.inl rfl) (by simp [h])
+          · simp [h]
+        | downgrade t =>
+          rw [run_downgrade]
+          split
+          · exact ih rest false _ (.inl rfl) (by simp [h])
+          · split
+            · simp [h]
+            · exact ih _ first s hf h
+        | _ => exact (ho trivial).elim
 
 end Paho.LFLemmas
